@@ -21,7 +21,7 @@ import numpy as np
 from harness import common, gen
 from harness.props.c02 import lean_ops
 
-MODULES = ['CirqVerif.Props.C06', 'CirqVerif.Props.C06Rules']
+MODULES = ['CirqVerif.Props.C06', 'CirqVerif.Props.C06Rules', 'NonVacuity.ComplexModel']
 IGN = 'verif-ignore'
 REPEAT_KEYS = [True]
 
